@@ -61,8 +61,10 @@ class ModelBackend:
         self.state_pages: dict[str, list] = {}
         self.cb_seq = 0
         self.on_call = None                # hook(kind, info) for trace logging
+        self.on_env = None                 # hook(kind, oid, outcome) for environment steps (timer fired / external completion)
         self.first_terminal: dict[str, int] = {}   # id -> stream index at which it became terminal
         self.get_state_calls = 0
+        self.woke = False                  # a wake event (timer / external completion) happened since the invocation started
         self.fail_get_state_at = None
         self._add_op({"Id": "exec-op", "Type": "EXECUTION", "Status": "STARTED", "Name": "exec",
                       "ExecutionDetails": {"InputPayload": input_payload}})
@@ -225,11 +227,17 @@ class ModelBackend:
         if kind == "retry" and rec["Status"] == "PENDING":
             rec["Status"] = "READY"
             self.changed.add(oid)
+            self.woke = True
+            if self.on_env:
+                self.on_env("timer", oid, "READY")
         elif kind == "wait" and rec["Status"] == "STARTED":
             rec["Status"] = "SUCCEEDED"
             rec["EndTimestamp"] = due
             self.changed.add(oid)
+            self.woke = True
             self.first_terminal.setdefault(oid, len(self.stream))
+            if self.on_env:
+                self.on_env("timer", oid, "SUCCEEDED")
 
     def tick(self):
         for t in self.due_timers():
@@ -250,7 +258,10 @@ class ModelBackend:
             rec["_error"] = error
         rec["EndTimestamp"] = self.clock()
         self.changed.add(oid)
+        self.woke = True
         self.first_terminal.setdefault(oid, len(self.stream))
+        if self.on_env:
+            self.on_env("ext", oid, outcome)
         return True
 
     def callback_id(self, oid):
@@ -378,6 +389,7 @@ class ModelBackend:
         payload (None = all), `page` = size of later pages."""
         self.inv += 1
         self.tick()
+        self.woke = False
         self.token_n += 1
         self.changed = set()
         ops = [self.wire(oid, json_mode=True) for oid in self.order]
